@@ -432,7 +432,8 @@ pub fn gen_random(rng: &mut Rng, max_depth: usize) -> Case {
         counter += 1;
         base.push((hex(&k), hex(format!("b{}", counter).as_bytes())));
     }
-    let n = rng.range(1, 30) as usize;
+    // now and then a long program: hundreds of operations logged in one layer
+    let n = if rng.chance(1, 60) { rng.range(130, 220) as usize } else { rng.range(1, 30) as usize };
     let ops = gen_ops(rng, max_depth - 1, &mut counter, n, &keys);
     // universe: working set, neighbours (prefix, extension) and a few random keys
     let mut uni: Vec<Vec<u8>> = keys.clone();
